@@ -175,22 +175,30 @@ def _to_order(psi, ctx, order):
     return np.transpose(psi, [ctx["phys"].index(b) for b in order])
 
 
+# operations after which the library's own todense(order) is always exercised
+_ALWAYS_TODENSE = ("construct", "child-order", "hartree", "random", "from_tensors")
+
+
 def _dense_checks(case, op, ctx, ttns, psi_ref, rng, tol):
-    """todense(order) and the independent walker against the reference amplitudes"""
+    """the result's amplitudes against the reference: by the independent walker over the node
+    tensors, and by the library's TTNS.todense(order) with a random order.  opt_einsum's "optimal"
+    path search makes todense cost ~0.5 s on trees with 6-7 nodes, so there it is exercised only
+    after the operations in _ALWAYS_TODENSE and in a random 20 % of the other checks."""
     order = _order(rng, ctx)
     ref = _to_order(psi_ref, ctx, order)
-    ok, got = case.call(op, _cls(ctx) + ":todense-raises", lambda: ttns.todense([ctx["bl"][b] for b in order]))
-    good = True
-    if ok:
-        good = case.close(op, _cls(ctx), got, ref, tol, order=order)
+    n_nodes = len(ttns.node_list)
+    use_lib = not (6 <= n_nodes <= 7) or op in _ALWAYS_TODENSE or rng.random() < 0.2
     walker = _walk(case, op, _cls(ctx), ttns, [ctx["bl"][b] for b in order])
     if walker is None:
         return False
-    if good and ok:
-        # the library's own todense disagrees with the raw tensors it holds
-        case.close("todense", _cls(ctx) + ":vs-raw-tensors", got, walker, TOL_RING, after=op, order=order)
-    else:
-        case.close(op, _cls(ctx) + ":raw-tensors", walker, ref, tol, order=order)
+    good = case.close(op, _cls(ctx) + ":raw-tensors", walker, ref, tol, order=order)
+    if use_lib:
+        ok, got = case.call(op, _cls(ctx) + ":todense", lambda: ttns.todense([ctx["bl"][b] for b in order]))
+        if ok:
+            # todense must agree with the tensors the object holds (whatever they are)
+            good = case.close("todense", _cls(ctx) + ":vs-raw-tensors", got, walker, TOL_RING, after=op, order=order) and good
+        else:
+            good = False
     return good
 
 
